@@ -7,6 +7,7 @@ from __future__ import annotations
 
 import collections
 import logging
+import re
 import sys
 from typing import TYPE_CHECKING
 
@@ -31,6 +32,9 @@ def value_to_string(value: Union[str, bytes]) -> str:
     if isinstance(value, bytes):
         # we prepend a double quote to the bytes so repr() always escapes using single quote and strip it afterwards
         value = repr(b'"' + value)[3:-1]
+    elif isinstance(value, str):
+        # backslashes directly in front of a double quote (or the closing quote) would escape it, so double them
+        value = re.sub(r'(\\+)(?="|$)', lambda m: m.group(1) * 2, value)
     if isinstance(value, str):
         # we escape double quotes, because we return it as a double quoted string value
         value = value.replace('"', '\\"')
